@@ -188,8 +188,8 @@ fn parse_rule(text: &str) -> Result<Ast, String> {
                 "domain" | "from" if !negated => {
                     for d in value.unwrap_or("").split('|') {
                         match d.strip_prefix('~') {
-                            Some(d) => a.dom_neg.push(d.to_ascii_lowercase()),
-                            None => a.dom_pos.push(d.to_ascii_lowercase()),
+                            Some(d) => a.dom_neg.push(ascii_host(d)),
+                            None => a.dom_pos.push(ascii_host(d)),
                         }
                     }
                 }
@@ -256,7 +256,7 @@ fn orq(url: &str, src: &str, ty: &str) -> ORq {
         "wss" => Scheme::Wss,
         _ => Scheme::Unsupported,
     };
-    let init = if src.is_empty() { None } else { Some(split_url(src).1) };
+    let init = if src.is_empty() { None } else { Some(ascii_host(&split_url(src).1)) };
     ORq { scheme, scheme_txt, ty: request_type_bit(ty), host, init, url: url.to_string(), url_lower: url.to_ascii_lowercase() }
 }
 
@@ -1136,6 +1136,16 @@ fn requests_a(extra_path: bool, counters: &mut Vec<(String, u64)>) -> Vec<Rq> {
 
 const DOMS: [&str; 3] = ["a.com", "sub.a.com", "b.com"];
 
+/// A host name as the request side reports it: lower case, IDN labels in punycode.
+fn ascii_host(h: &str) -> String {
+    let l = h.to_lowercase();
+    if l.is_ascii() {
+        l
+    } else {
+        idna::domain_to_ascii(&l).unwrap_or(l)
+    }
+}
+
 /// All domain lists of cube B: each of the three domains absent / listed / ~listed, in every order.
 fn domain_lists() -> Vec<String> {
     let mut out = vec![String::new()];
@@ -1157,6 +1167,10 @@ fn domain_lists() -> Vec<String> {
     }
     // entries that start with `www.` (a host like any other: no prefix is dropped on either side)
     for l in ["www.a.com", "~www.a.com", "a.com|~www.a.com", "www.a.com|b.com", "~www.a.com|~b.com", "sub.a.com|www.a.com"] {
+        out.push(l.to_string());
+    }
+    // entries in another spelling than the one a request reports: IDN labels in Unicode, upper case
+    for l in ["bücher.de", "~bücher.de", "bücher.de|b.com", "xn--bcher-kva.de", "BÜCHER.de", "a.com|~x.bücher.de", "A.com", "~A.com|b.com", "Sub.A.Com|~a.com"] {
         out.push(l.to_string());
     }
     out
@@ -1215,7 +1229,7 @@ fn requests_b(counters: &mut Vec<(String, u64)>) -> Vec<Rq> {
     let mut out = vec![];
     let mut rejected = 0;
     // (the last two initiators have 10 and 14 labels: a listed domain covers its sub-domains at any depth)
-    for (src_host, first_party_host) in [("a.com", "cdn.a.com"), ("sub.a.com", "cdn.a.com"), ("x.sub.a.com", "a.com"), ("b.com", "cdn.b.com"), ("c.com", "cdn.c.com"), ("", ""), ("l1.l2.l3.l4.l5.l6.l7.sub.a.com", "cdn.a.com"), ("www.a.com", "cdn.a.com"), ("x.www.a.com", "cdn.a.com"), ("m1.m2.m3.m4.m5.m6.m7.m8.m9.m10.m11.m12.b.com", "cdn.b.com")] {
+    for (src_host, first_party_host) in [("a.com", "cdn.a.com"), ("sub.a.com", "cdn.a.com"), ("x.sub.a.com", "a.com"), ("b.com", "cdn.b.com"), ("c.com", "cdn.c.com"), ("", ""), ("l1.l2.l3.l4.l5.l6.l7.sub.a.com", "cdn.a.com"), ("www.a.com", "cdn.a.com"), ("x.www.a.com", "cdn.a.com"), ("m1.m2.m3.m4.m5.m6.m7.m8.m9.m10.m11.m12.b.com", "cdn.b.com"), ("bücher.de", "cdn.a.com"), ("x.bücher.de", "cdn.a.com")] {
         for host in ["example.com", first_party_host] {
             if host.is_empty() {
                 continue;
